@@ -85,6 +85,8 @@ def make_basis(mesh, v, elemname, order):
         if mode == 'tag':
             m2 = mesh.with_subdomains({'r': np.array(cells, dtype=dt)})
             return Basis(m2, e, elements='r', **kw), cells
+        if mode == 'named':                      # a tag the (shared) mesh object already carries
+            return Basis(mesh, e, elements=reg['name'], **kw), cells
         # mode 'multi': a list / tuple / set of selectors (tags, index arrays, single indices) that may overlap;
         # the region is their union (reg['cells'], sorted)
         tags = {f'r{j}': np.array(pt['ix'], dtype=dt) for j, pt in enumerate(reg['parts']) if pt['as'] == 'tag'}
@@ -145,7 +147,7 @@ def geometry(mesh, kind, basis, req, dom):
         elif len(set(got)) == len(got):
             pos = {g: j for j, g in enumerate(got)}
             order = [pos[r] for r in req]
-    return p, int(sc), ents, order
+    return p, int(sc), ents, order, {'rids': sorted(int(r) + 1 for r in req), 'gids': sorted(int(g) + 1 for g in got)}
 
 
 def monomial_functional(alpha):
@@ -160,19 +162,23 @@ def monomial_functional(alpha):
     return Functional(f)
 
 
-BASE_EV = {'err': '', 'rel': 'none', 'sgn': 1}
+BASE_EV = {'err': '', 'rel': 'none', 'sgn': 1, 'rids': [], 'gids': []}
 
 
-def exec_integrate(rec, v):
+def exec_integrate(rec, v, mesh=None):
     kind = rec['kind']
     ev = dict(BASE_EV, a='Integrate', kind=kind, dom=v['region']['dom'], scale=1, p=[], ents=[], alpha=list(v['alpha']),
               order=0, oracle=rec['oracle'], box=v.get('box', []), val=[0] * 5, evals=[], rel=v['rel'], sgn=int(v['sgn']))
 
     def call():
-        mesh = build_mesh(v)
+        msh = mesh if mesh is not None else build_mesh(v)
         elemname = rec.get('elem') or DEFAULT_ELEM[kind]
-        basis, req = make_basis(mesh, v, elemname, rec.get('order'))
-        p, sc, ents, order = geometry(mesh, kind, basis, req, ev['dom'])
+        basis, req = make_basis(msh, v, elemname, rec.get('order'))
+        return _integrate_on(msh, basis, req)
+
+    def _integrate_on(mesh, basis, req):
+        p, sc, ents, order, idl = geometry(mesh, kind, basis, req, ev['dom'])
+        ev.update(idl)
         F = monomial_functional(v['alpha'])
         val = F.assemble(basis)
         ev.update(p=p, scale=sc, ents=ents, val=fx_req(float(val)),
@@ -196,7 +202,8 @@ def exec_masssum(rec, v):
         from skfem import BilinearForm
         mesh = build_mesh(v)
         basis, req = make_basis(mesh, v, rec['elem'], rec.get('order'))
-        p, sc, ents, _ = geometry(mesh, kind, basis, req, ev['dom'])
+        p, sc, ents, _, idl = geometry(mesh, kind, basis, req, ev['dom'])
+        ev.update(idl)
         M = BilinearForm(lambda u, w, _: u * w).assemble(basis)
         tot = sum((fr(x) for x in np.asarray(M.data, dtype=np.float64)), Fraction(0))   # exact sum of all entries
         ev.update(p=p, scale=sc, ents=ents, val=fx_req(tot))
@@ -217,7 +224,7 @@ def exec_entries(rec, v):
         mesh = build_mesh(v)
         e = elem_of(rec['elem'])
         basis = Basis(mesh, e)
-        p, sc, ents, _ = geometry(mesh, kind, basis, list(range(mesh.t.shape[1])), 'cells')
+        p, sc, ents, _, _ = geometry(mesh, kind, basis, list(range(mesh.t.shape[1])), 'cells')
         deg = int(e.maxdeg)
         d = DIM[kind]
         lnodes = []
@@ -252,6 +259,24 @@ EXEC = {'integrate': exec_integrate, 'masssum': exec_masssum, 'entries': exec_en
 
 
 def execute(rec):
+    if rec['driver'] == 'sequence':
+        # ONE mesh object (its mapping, with the Jacobian cache, lives on it); bases are built one after the other
+        def build():
+            m = build_mesh(rec['variants'][0])
+            if rec.get('tags'):
+                m = m.with_subdomains({k: np.array(c, dtype=np.int32) for k, c in rec['tags'].items()})
+            return m
+        mesh, err = guarded(build, 60)
+        out = []
+        for v in rec['variants']:
+            sub = dict(rec, order=v.get('order'), elem=v.get('elem'))
+            if err:
+                ev = exec_integrate(sub, v, mesh=None)
+            else:
+                ev = exec_integrate(sub, v, mesh=mesh)
+            ev['rel'] = 'none'
+            out.append(ev)
+        return out
     return [EXEC[rec['driver']](rec, v) for v in rec['variants']]
 
 
@@ -311,9 +336,15 @@ def numbering_variant(v, rng, flip=True):
     reg = dict(v['region'])
     if reg['dom'] == 'cells' and reg['mode'] != 'all':
         inv = {int(o): j for j, o in enumerate(order)}
-        reg['cells'] = sorted(inv[c] for c in reg['cells'])
+        if reg['mode'] == 'multi':
+            reg['parts'] = [dict(pt, ix=[inv[c] for c in pt['ix']]) for pt in reg['parts']]
+            reg['cells'] = sorted(inv[c] for c in reg['cells'])
+        else:
+            reg['cells'] = [inv[c] for c in reg['cells']]               # same listing order, new cell numbers
     if reg['dom'] == 'facets' and reg['mode'] != 'boundary':
         reg['fverts'] = [[int(perm[x]) for x in f] for f in reg['fverts']]
+        if reg['mode'] == 'multi':
+            reg['parts'] = [dict(pt, fverts=[[int(perm[x]) for x in f] for f in pt['fverts']]) for pt in reg['parts']]
     w['region'] = reg
     return w
 
@@ -402,15 +433,43 @@ def jacsq_is_square(P, f):
     return q > 0 and isqrt(q) ** 2 == q
 
 
+def multi_parts(n, rng, key):
+    """2-3 overlapping selectors over range(n) (tags, index arrays, a single index) in a list / tuple / set."""
+    k = int(rng.integers(2, 4))
+    parts = []
+    common = int(rng.integers(0, n))                       # every part contains it: the selectors overlap
+    for j in range(k):
+        size = int(rng.integers(1, max(2, n)))
+        ix = set(int(c) for c in rng.choice(n, min(size, n), replace=False)) | {common}
+        how = ('tag', 'arr')[int(rng.integers(0, 2))]
+        parts.append({'as': how, key: sorted(ix)})
+    if rng.random() < 0.4:
+        parts.append({'as': 'int', key: [common]})
+    hashable = all(pt['as'] != 'arr' for pt in parts)
+    container = ('list', 'tuple', 'set')[int(rng.integers(0, 3 if hashable else 2))]
+    union = sorted(set().union(*[set(pt[key]) for pt in parts]))
+    return parts, container, union
+
+
 def regions_cells(nt, rng, k):
-    """k random proper cell subsets as region descriptions (sorted unique), plus the whole mesh."""
+    """the whole mesh; k random proper cell subsets as index arrays (sorted, shuffled, int32/int64) or tags; one
+    collection of overlapping selectors (the region is their union)."""
     out = [{'dom': 'cells', 'mode': 'all'}]
     for j in range(k):
         if nt < 2:
             break
         size = int(rng.integers(1, nt))
         cells = sorted(int(c) for c in rng.choice(nt, size, replace=False))
-        out.append({'dom': 'cells', 'mode': 'array' if j % 2 == 0 else 'tag', 'cells': cells})
+        if j % 2 == 0 and rng.random() < 0.5:
+            cells = [int(c) for c in rng.permutation(cells)]             # listed in another order
+        out.append({'dom': 'cells', 'mode': 'array' if j % 2 == 0 else 'tag', 'cells': cells,
+                    'dtype': ('int32', 'int64')[int(rng.integers(0, 2))]})
+    if nt >= 2 and k >= 1:
+        parts, container, union = multi_parts(nt, rng, 'ix')
+        out.append({'dom': 'cells', 'mode': 'multi', 'parts': parts, 'container': container, 'cells': union})
+    if nt >= 3 and k >= 1:
+        full = [int(c) for c in rng.permutation(nt)]                     # every cell, not in ascending order
+        out.append({'dom': 'cells', 'mode': 'array', 'cells': full, 'dtype': 'int32'})
     return out
 
 
@@ -525,23 +584,42 @@ def gen_integrate(tier, rng):
         m, F = all_facets_of(kind, p, t)
         P = np.asarray(m.p)
         ok = [f for f in F if jacsq_is_square(P, f)]
+        allrat = len(ok) == len(F)
         bnd = [[int(x) for x in m.facets[:, j]] for j in m.boundary_facets()]
-        regs = []
+        inter = [f for j, f in enumerate(F) if m.f2t[1, j] != -1]
+        regs = []                      # (region, oracle): 'cells' = sums over facets of rational measure,
+        #                                'sq' = per-facet squares for facets of irrational measure
         if all(jacsq_is_square(P, f) for f in bnd):
-            regs.append({'dom': 'facets', 'mode': 'boundary'})
+            regs.append(({'dom': 'facets', 'mode': 'boundary'}, 'cells'))
         for j in range(nsub):
             if not ok:
                 break
             size = int(rng.integers(1, len(ok) + 1))
             sel = [ok[i] for i in sorted(rng.choice(len(ok), size, replace=False))]
-            regs.append({'dom': 'facets', 'mode': 'array' if j % 2 == 0 else 'tag', 'fverts': sel})
+            regs.append(({'dom': 'facets', 'mode': 'array' if j % 2 == 0 else 'tag', 'fverts': sel}, 'cells'))
+        orc = 'cells' if allrat else 'sq'
+        nf = len(F)
+        # every facet of the mesh, listed in an order that is not ascending; full length with repetitions;
+        # subsets in arbitrary order; collections of overlapping selectors
+        listings = [inter + bnd, F[::-1], [F[i] for i in rng.permutation(nf)],
+                    [F[i] for i in sorted(rng.integers(0, nf, size=nf))],
+                    [F[i] for i in rng.permutation(nf)[:max(1, nf // 2)]]]
+        for j, sel in enumerate(listings):
+            regs.append(({'dom': 'facets', 'mode': 'array', 'fverts': sel, 'dtype': ('int32', 'int64')[j % 2]}, orc))
+        parts, container, union = multi_parts(nf, rng, 'ix')
+        parts = [{'as': pt['as'], 'fverts': [F[i] for i in pt['ix']]} for pt in parts]
+        regs.append(({'dom': 'facets', 'mode': 'multi', 'parts': parts, 'container': container,
+                      'fverts': [F[i] for i in union]}, orc))
         d = DIM[kind]
-        for reg in regs:
+        for reg, oracle in regs:
             for q in degs:
+                if oracle == 'sq' and q > 2:
+                    continue
                 mons = [a for a in monomials_upto(d, q) if sum(a) == q]
                 alpha = mons[int(rng.integers(len(mons)))]
                 v = base_variant(kind, p, t, reg, alpha)
-                frecs.append(rec_integrate(kind, fam, with_variants(v, rng, 1, 1, refine), 'cells', q, None))
+                frecs.append(rec_integrate(kind, fam, with_variants(v, rng, 1, 1, refine and oracle == 'cells'),
+                                           oracle, q, None))
 
     p, t = U.line_points([0, 1, 3, 4])
     addf('line', 'U1-facets', p, t, (0, 1, 3), refine=False)
@@ -551,6 +629,14 @@ def gen_integrate(tier, rng):
     p, t = U.quad_grid(2, 2)
     addf('quad', 'U2q-facets', p, t, (0, 1, 2, 4))
     addf('quad', 'U2q-345-facets', p * np.array([[3], [4]]), t, (0, 2, 3))
+    # graded (non-uniform) tensor triangulation and an irregular one: facets of many different (irrational) lengths
+    pg, tg = U.tri_lattice(3, 3, tuple(int(x) for x in rng.integers(0, 2, size=9)))
+    gx, gy = np.array([0, 1, 4, 8]), np.array([0, 2, 3, 8])
+    pg = np.vstack((gx[pg[0].astype(int)], gy[pg[1].astype(int)]))
+    addf('tri', 'graded-facets', pg, tg, (0, 1, 2), nsub=0)
+    pd, td = U.delaunay_int(2, 8, 5, rng)
+    if td.shape[1]:
+        addf('tri', 'delaunay-facets', pd, td, (0, 2), nsub=0)
     p, t = U.tet_cubes(1, 6)
     addf('tet', 'U3t-facets', p, t, (0, 1, 2, 3))
     p, t = U.tet_cubes(2, 5)
@@ -651,6 +737,74 @@ def gen_entries(tier, rng):
     return recs
 
 
+def graded_axis(n, rng, total):
+    """n + 1 increasing integers from 0: steps of 1 and 2 in random order (a non-uniform tensor grid)."""
+    twos = max(0, min(n, total - n))
+    steps = np.array([2] * twos + [1] * (n - twos))
+    rng.shuffle(steps)
+    return np.concatenate(([0], np.cumsum(steps)))
+
+
+def gen_sequence(tier, rng):
+    """Histories on ONE mesh object: several bases over different cell subsets built one after the other, every one
+    judged against the exact integral.  Small meshes with index arrays that are easy to confuse (same bytes, same
+    ends, same length), and a graded tensor mesh with more than 2000 cells and subsets of more than 1000 cells."""
+    recs = []
+    big = tier == 'thorough'
+
+    def seq(kind, fam, p, t, regions, degs, tags=None, elemental=1):
+        d = DIM[kind]
+        variants = []
+        for reg in regions:
+            for q in degs:
+                mons = [a for a in monomials_upto(d, q) if sum(a) == q]
+                alpha = mons[int(rng.integers(len(mons)))]
+                v = base_variant(kind, p, t, reg, alpha)
+                v['rel'] = 'none'
+                v['order'] = q
+                variants.append(v)
+        rec = {'driver': 'sequence', 'kind': kind, 'family': fam, 'variants': variants, 'oracle': 'cells', 'order': None,
+               'elem': None, 'elemental': int(elemental)}
+        if tags:
+            rec['tags'] = tags
+        recs.append(rec)
+
+    def arr(cells, dtype='int64'):
+        return {'dom': 'cells', 'mode': 'array', 'cells': [int(c) for c in cells], 'dtype': dtype}
+
+    # small meshes (cells of different sizes): index arrays with equal bytes / equal ends / equal length in a row
+    for kind, (p, t) in (('quad', U.quad_grid(3, 2)), ('hex', U.hex_grid(2, 2, 1)), ('tri', U.tri_lattice(2, 2, (0, 1, 1, 0)))):
+        p = np.array(p)
+        p[0] = np.array([0, 1, 3, 7])[p[0].astype(int)]                  # graded in x
+        nt = np.asarray(t).shape[1]
+        regs = [arr([1, 0], 'int32'), arr([1], 'int64'), arr([0, 2, 3]), arr([0, 1, 3]), arr([3, 2, 0]),
+                arr(list(range(nt))), arr(list(range(nt))[::-1], 'int32'), arr([0, 0, 1])]
+        seq(kind, 'history-small', p, t, regs, (0, 2) if kind != 'hex' else (0, 1))
+    # graded tensor quadrilateral mesh, > 2000 cells; sub-domains of > 1000 cells that share their first and last cells
+    n = 46
+    xs, ys = graded_axis(n, rng, 56), graded_axis(n, rng, 56)
+    P = np.array([[xs[i], ys[j]] for j in range(n + 1) for i in range(n + 1)]).T
+    _, T = U.quad_grid(n, n)
+    nt = n * n
+    lo = int(rng.integers(3, 200))
+    hi = int(rng.integers(900, nt - 1003))
+    bands = [np.concatenate([np.arange(0, 3), np.arange(a, a + 1000), np.arange(nt - 3, nt)]) for a in (lo, hi)]
+    bands.append(np.concatenate([np.arange(0, 3), np.arange(lo + 300, lo + 1300), np.arange(nt - 3, nt)]))
+    seq('quad', 'history-graded-large', P, T, [arr(b, 'int32') for b in bands], (1, 2))
+    seq('quad', 'history-graded-large', P, T,
+        [{'dom': 'cells', 'mode': 'named', 'name': f'band{j}', 'cells': [int(c) for c in b]} for j, b in enumerate(bands[:2])],
+        (2,), tags={f'band{j}': [int(c) for c in b] for j, b in enumerate(bands[:2])})
+    if big:
+        n = 13
+        ax = [graded_axis(n, rng, 18) for _ in range(3)]
+        Ph, Th = U.hex_grid(n, n, n)
+        Ph = np.vstack([ax[c][Ph[c].astype(int)] for c in range(3)])
+        nt = n ** 3
+        bands = [np.concatenate([np.arange(0, 3), np.arange(a, a + 1000), np.arange(nt - 3, nt)]) for a in (5, 800)]
+        seq('hex', 'history-graded-large', Ph, Th, [arr(b, 'int32') for b in bands], (1,))
+    return recs
+
+
 def generate(tier, seed):
     out = []
     rounds = (20, 8, 4) if tier == 'thorough' else (2, 1, 1)     # further rounds draw other monomials / regions / variants
@@ -660,6 +814,7 @@ def generate(tier, seed):
         out += gen_masssum(tier, np.random.default_rng(seed + 3 + 1000 * k))
     for k in range(rounds[2]):
         out += gen_entries(tier, np.random.default_rng(seed + 4 + 1000 * k))
+    out += gen_sequence(tier, np.random.default_rng(seed + 5))
     return out
 
 
@@ -689,7 +844,7 @@ def run(ctx):
     ctx.validate('TraceC02', scs, jvms=8)
     import json
     ctx.notes['distinct_nontrivial'] = len({json.dumps(r, sort_keys=True) for r in recs})
-    ctx.notes['by_driver'] = {d: sum(1 for r in recs if r['driver'] == d) for d in EXEC}
+    ctx.notes['by_driver'] = {d: sum(1 for r in recs if r['driver'] == d) for d in list(EXEC) + ['sequence']}
     ctx.notes['tolerances'] = {'TolSum': '2^-40 x integer magnitude bound of the integral (computed in TLA+)',
                                'TolEntries': '2^-34 absolute'}
     return ctx.finish(rule=RULE, assumptions=[
